@@ -299,10 +299,6 @@ Definition stops_float (rest : text) : Prop :=
 Lemma stops_float_stops : forall rest, stops_float rest -> stops 10 rest.
 Proof. intros [|c r] H; [exact I|]. simpl in *. tauto. Qed.
 
-(* a conversion specification without flags and width: %f, %lf, %.pf *)
-Definition plain_fspec (sp : nspec) : Prop :=
-  n_plus sp = false /\ n_space sp = false /\ n_zero sp = false /\ n_alt sp = false /\ n_width sp = O.
-
 Lemma scan_exponent_none : forall rest n4, stops_float rest -> scan_exponent rest n4 = None.
 Proof.
   intros [|c r] n4 H; [reflexivity|]. simpl in H. destruct H as (_ & He & HE & _).
@@ -316,23 +312,27 @@ Definition frac_text (p : nat) (alt : bool) (n : N) : text :=
   | S _ => c_dot :: pad_digits p (print_nat 10 false (n mod 10 ^ N.of_nat p))
   end.
 
-Lemma scan_mantissa_print : forall p n rest n2, stops_float rest ->
-  scan_mantissa (print_nat 10 false (n / 10 ^ N.of_nat p) ++ frac_text p false n ++ rest) n2
-  = (n, length (print_nat 10 false (n / 10 ^ N.of_nat p)), p, rest,
-     (n2 + length (print_nat 10 false (n / 10 ^ N.of_nat p)) + length (frac_text p false n))%nat).
+Lemma scan_mantissa_print : forall k p n rest n2, stops_float rest ->
+  scan_mantissa (repeat c_zero k ++ print_nat 10 false (n / 10 ^ N.of_nat p) ++ frac_text p false n ++ rest) n2
+  = (n, (k + length (print_nat 10 false (n / 10 ^ N.of_nat p)))%nat, p, rest,
+     (n2 + k + length (print_nat 10 false (n / 10 ^ N.of_nat p)) + length (frac_text p false n))%nat).
 Proof.
-  intros p n rest n2 Hr. set (P := 10 ^ N.of_nat p).
+  intros k p n rest n2 Hr. set (P := 10 ^ N.of_nat p).
   assert (HP : 0 < P) by (unfold P; apply N.neq_0_lt_0, N.pow_nonzero; discriminate).
   unfold scan_mantissa.
+  rewrite scan_digits_app by apply all_digits_zeros. rewrite value_of_zeros, N.mul_0_l.
   rewrite scan_digits_app by (apply print_nat_all; lia).
-  rewrite print_nat_value by lia.
+  rewrite print_nat_value by lia. rewrite repeat_length.
   destruct p as [|p'].
   - cbn [frac_text app]. rewrite scan_digits_stop by (apply stops_float_stops, Hr).
     assert (Hn : n / P = n) by (unfold P; simpl; apply N.div_1_r).
+    set (L := length (print_nat 10 false (n / P))).
+    replace (0 + k + L)%nat with (k + L)%nat by lia.
+    replace (n2 + k + L + length (@nil byte))%nat with (n2 + (k + L))%nat by (simpl; lia).
     destruct rest as [|c r].
-    + rewrite Hn. f_equal. simpl. lia.
+    + rewrite Hn. reflexivity.
     + simpl in Hr. destruct Hr as (_ & _ & _ & Hdot). apply N.eqb_neq in Hdot. rewrite Hdot.
-      rewrite Hn. f_equal. simpl. lia.
+      rewrite Hn. reflexivity.
   - cbn [frac_text]. fold P. rewrite scan_digits_stop by (cbn [app]; reflexivity).
     cbn [app]. replace (c_dot =? c_dot) with true by reflexivity.
     destruct (pad_digits_spec (S p') (n mod P)) as (Hpa & Hpl & Hpv);
@@ -341,48 +341,85 @@ Proof.
     rewrite scan_digits_stop by (apply stops_float_stops, Hr).
     rewrite Hpv. fold P. rewrite Hpl.
     replace (n / P * P + n mod P) with n by (rewrite (N.div_mod' n P) at 1; lia).
-    f_equal. simpl. rewrite Hpl. lia.
+    set (L := length (print_nat 10 false (n / P))).
+    replace (0 + k + L)%nat with (k + L)%nat by lia.
+    cbn [length]. rewrite Hpl.
+    replace (S (n2 + (k + L) + (0 + S p')))%nat with (n2 + k + L + S (S p'))%nat by lia.
+    replace (0 + S p')%nat with (S p') by lia. reflexivity.
 Qed.
 
-Lemma print_float_plain : forall sp s mx ex, plain_fspec sp ->
-  print_float sp s mx ex
-  = (if s then [c_minus] else []) ++
-    print_nat 10 false (scaled_round (float_prec sp) mx ex / 10 ^ N.of_nat (float_prec sp)) ++
-    frac_text (float_prec sp) false (scaled_round (float_prec sp) mx ex).
+(* a float directive without '#': any of the flags + space 0 and a width, any precision *)
+Definition fspec_ok (sp : nspec) : Prop := n_alt sp = false.
+
+Lemma print_float_shape : forall sp s mx ex, fspec_ok sp ->
+  exists k1 sg k2,
+    print_float sp s mx ex
+    = repeat c_space k1 ++ sg ++ repeat c_zero k2 ++
+      print_nat 10 false (scaled_round (float_prec sp) mx ex / 10 ^ N.of_nat (float_prec sp)) ++
+      frac_text (float_prec sp) false (scaled_round (float_prec sp) mx ex)
+    /\ sign_text sg /\ sign_neg sg = s.
 Proof.
-  intros sp s mx ex (Hplus & Hspace & Hzero & Halt & Hw).
-  unfold print_float, frac_text. rewrite Hplus, Hspace, Hzero, Halt, Hw.
-  unfold pad. cbn [Nat.sub repeat app]. reflexivity.
+  intros sp s mx ex Halt. unfold fspec_ok in Halt. unfold print_float. rewrite Halt.
+  fold (frac_text (float_prec sp) false (scaled_round (float_prec sp) mx ex)).
+  set (ip := print_nat 10 false (scaled_round (float_prec sp) mx ex / 10 ^ N.of_nat (float_prec sp))).
+  set (fp := frac_text (float_prec sp) false (scaled_round (float_prec sp) mx ex)).
+  unfold pad. destruct s.
+  - destruct (n_zero sp).
+    + exists O, [c_minus]. eexists. repeat split; [right; left; reflexivity].
+    + eexists _, [c_minus], O. repeat split; [right; left; reflexivity].
+  - destruct (n_plus sp).
+    + destruct (n_zero sp).
+      * exists O, [c_plus]. eexists. repeat split; [right; right; reflexivity].
+      * eexists _, [c_plus], O. repeat split; [right; right; reflexivity].
+    + destruct (n_space sp).
+      * destruct (n_zero sp).
+        -- exists 1%nat, []. eexists. repeat split; [left; reflexivity].
+        -- eexists (S _), [], O. split; [|split; [left; reflexivity|reflexivity]].
+           rewrite <- repeat_snoc, <- app_assoc. reflexivity.
+      * destruct (n_zero sp).
+        -- exists O, []. eexists. repeat split; [left; reflexivity].
+        -- eexists _, [], O. repeat split; [left; reflexivity].
 Qed.
 
-(* the text "%.pf" writes for a finite double is scanned as sign, N = scaled_round, p decimals,
-   and the scan consumes exactly that text *)
-Theorem float_text_roundtrip : forall sp s mx ex rest, plain_fspec sp -> stops_float rest ->
+(* the text "%[flags][width][.p]f" writes for a finite double is scanned as sign, N = scaled_round,
+   p decimals, and the scan consumes exactly that text *)
+Theorem float_text_roundtrip : forall sp s mx ex rest, fspec_ok sp -> stops_float rest ->
   scan_float_text (print_float sp s mx ex ++ rest)
   = Some (s, scaled_round (float_prec sp) mx ex, (- Z.of_nat (float_prec sp))%Z, length (print_float sp s mx ex)).
 Proof.
-  intros sp s mx ex rest Hsp Hr. rewrite print_float_plain by assumption.
+  intros sp s mx ex rest Hsp Hr.
+  destruct (print_float_shape sp s mx ex Hsp) as (k1 & sg & k2 & Ep & Hsg & Hneg). rewrite Ep.
   rewrite <- !app_assoc.
-  set (p := float_prec sp). set (n := scaled_round p mx ex).
-  set (ip := print_nat 10 false (n / 10 ^ N.of_nat p)).
+  set (p := float_prec sp) in *. set (n := scaled_round p mx ex) in *.
+  set (ip := print_nat 10 false (n / 10 ^ N.of_nat p)) in *.
   pose proof (print_nat_all 10 false ltac:(lia) ltac:(lia) (n / 10 ^ N.of_nat p)) as Hipd. fold ip in Hipd.
   pose proof (print_nat_nonempty 10 false (n / 10 ^ N.of_nat p)) as Hipn. fold ip in Hipn.
-  pose proof (fun n2 => scan_mantissa_print p n rest n2 Hr) as Hman. fold ip in Hman.
-  destruct ip as [|d0 t] eqn:Eip; [congruence|].
-  assert (Hd0 : digit_in 10 d0 <> None) by now inversion Hipd.
-  destruct (digit_not_sign 10 d0 Hd0) as [Hm Hpl].
-  pose proof (digit_not_space 10 d0 Hd0) as Hsp'.
-  unfold scan_float_text. destruct s.
-  - cbn [app]. rewrite skip_ws_nonspace by reflexivity.
-    cbn [scan_sign]. replace (c_minus =? c_minus) with true by reflexivity.
-    change (d0 :: t ++ frac_text p false n ++ rest) with ((d0 :: t) ++ frac_text p false n ++ rest).
-    rewrite Hman. cbn [length Nat.add]. rewrite scan_exponent_none by assumption.
-    f_equal. f_equal. rewrite !app_length. simpl. lia.
-  - cbn [app]. rewrite skip_ws_nonspace by assumption.
-    cbn [scan_sign]. rewrite Hm, Hpl.
-    change (d0 :: t ++ frac_text p false n ++ rest) with ((d0 :: t) ++ frac_text p false n ++ rest).
-    rewrite Hman. cbn [length Nat.add]. rewrite scan_exponent_none by assumption.
-    f_equal. f_equal. rewrite !app_length. simpl. lia.
+  pose proof (fun n2 => scan_mantissa_print k2 p n rest n2 Hr) as Hman. fold ip in Hman.
+  assert (Hfirst : exists c r, repeat c_zero k2 ++ ip ++ frac_text p false n ++ rest = c :: r /\ digit_in 10 c <> None).
+  { destruct k2 as [|k2].
+    - cbn [repeat app]. destruct ip as [|d0 t]; [congruence|]. inversion Hipd; subst. cbn [app]. eauto.
+    - cbn [repeat app]. eexists _, _. split; [reflexivity|discriminate]. }
+  destruct Hfirst as (c & r & Ec & Hc).
+  destruct (digit_not_sign 10 c Hc) as [Hm Hpl]. pose proof (digit_not_space 10 c Hc) as Hs.
+  unfold scan_float_text. rewrite skip_ws_spaces.
+  destruct Hsg as [-> | [-> | ->]]; cbn [app length sign_neg] in *; subst s.
+  - rewrite Ec. rewrite skip_ws_nonspace by assumption. cbn [scan_sign]. rewrite Hm, Hpl. rewrite <- Ec.
+    rewrite Hman. rewrite scan_exponent_none by assumption.
+    destruct (k2 + length ip + p)%nat eqn:E0.
+    + exfalso. destruct ip; [congruence|]. simpl in E0. lia.
+    + f_equal. f_equal. rewrite !app_length, !repeat_length. lia.
+  - rewrite skip_ws_nonspace by reflexivity. cbn [scan_sign].
+    replace (c_minus =? c_minus) with true by reflexivity.
+    rewrite Hman. rewrite scan_exponent_none by assumption.
+    destruct (k2 + length ip + p)%nat eqn:E0.
+    + exfalso. destruct ip; [congruence|]. simpl in E0. lia.
+    + f_equal. f_equal. rewrite !app_length, !repeat_length. cbn [length]. rewrite !app_length, !repeat_length. lia.
+  - rewrite skip_ws_nonspace by reflexivity. cbn [scan_sign].
+    replace (c_plus =? c_minus) with false by reflexivity. replace (c_plus =? c_plus) with true by reflexivity.
+    rewrite Hman. rewrite scan_exponent_none by assumption.
+    destruct (k2 + length ip + p)%nat eqn:E0.
+    + exfalso. destruct ip; [congruence|]. simpl in E0. lia.
+    + f_equal. f_equal. rewrite !app_length, !repeat_length. cbn [length]. rewrite !app_length, !repeat_length. lia.
 Qed.
 
 (* ================================================================== Float values through scan_num *)
@@ -418,7 +455,7 @@ Qed.
 (* the text of a finite double b = (-1)^s mx 2^ex written with a plain %.pf is read back by %lf,
    consuming exactly that text, into the double packed from the nearest-even (m, e) *)
 Lemma float_scan_encode : forall cf sp ssp b s mx ex rest,
-  conv_is_float (n_conv sp) = true -> plain_fspec sp ->
+  conv_is_float (n_conv sp) = true -> fspec_ok sp ->
   conv_is_float (n_conv ssp) = true -> conv_is_int (n_conv ssp) = false -> n_long ssp = true ->
   decode_double b = Some (s, mx, ex) -> stops_float rest ->
   let r := round_bin 53 (-1074) (scaled_round (float_prec sp) mx ex) (pow10 (float_prec sp)) in
@@ -668,7 +705,7 @@ Ltac feed H := repeat match type of H with
    a bit pattern b' that decodes to a finite double of the same sign with
    |m' 2^e' - mx 2^ex| <= 10^-p  (multiplied by 10^p 2^1074) *)
 Theorem float_roundtrip : forall cf sp ssp b s mx ex rest,
-  conv_is_float (n_conv sp) = true -> plain_fspec sp ->
+  conv_is_float (n_conv sp) = true -> fspec_ok sp ->
   conv_is_float (n_conv ssp) = true -> conv_is_int (n_conv ssp) = false -> n_long ssp = true ->
   decode_double b = Some (s, mx, ex) -> stops_float rest ->
   exists b' m' e',
@@ -751,7 +788,6 @@ Proof.
   destruct (decode_double b) as [[[s mx] ex]|] eqn:Hd; [|congruence].
   destruct (float_roundtrip cf (spec_f false) (spec_f true) b s mx ex after) as (b' & m' & e' & Hs & Hd' & Hv);
     try reflexivity; try assumption.
-  { repeat split. }
   exists b'. constructor; try assumption.
   - unfold finite. congruence.
   - exists s, mx, ex, m', e'. repeat split; assumption.
@@ -759,7 +795,7 @@ Proof.
 Qed.
 
 Lemma num_float_item : forall cf sp ssp b after,
-  conv_is_float (n_conv sp) = true -> plain_fspec sp ->
+  conv_is_float (n_conv sp) = true -> fspec_ok sp ->
   conv_is_float (n_conv ssp) = true -> conv_is_int (n_conv ssp) = false -> n_long ssp = true ->
   finite b -> stops_float after ->
   exists b', item_ok cf (PNum sp (VFloat b)) (SNum ssp) after (VFloat b) (VFloat b').
@@ -846,7 +882,7 @@ Fixpoint wf_seq (cf : config) (its : list pitem) (sits : list sitem) (rest : tex
   | PNum sp (VInt z) :: r, SNum ssp :: sr =>
       int_directive_ok cf sp ssp z (print_items cf r ++ rest) /\ wf_seq cf r sr rest
   | PNum sp (VFloat b) :: r, SNum ssp :: sr =>
-      conv_is_float (n_conv sp) = true /\ plain_fspec sp /\
+      conv_is_float (n_conv sp) = true /\ fspec_ok sp /\
       conv_is_float (n_conv ssp) = true /\ conv_is_int (n_conv ssp) = false /\ n_long ssp = true /\
       finite b /\ stops_float (print_items cf r ++ rest) /\ wf_seq cf r sr rest
   | _, _ => False
